@@ -1422,6 +1422,9 @@ func (fx *FnExec) sliceOp(x *ssa.Slice) error {
 		if lo == "0" {
 			out.L[0] = v.L[0]
 			out.L = append(out.L, v.L[2:]...)
+			if et := elemOf(x.X.Type()); x.High != nil && (typeKey(et) == "byte" || typeKey(et) == "uint8") {
+				fx.assume(sEq(app("bytes_str", out.L[2], out.L[1]), app("str_sub", app("bytes_str", v.L[2], v.L[1]), "0", hi)))
+			}
 		} else {
 			et := elemOf(x.X.Type())
 			for i, l := range fx.e.leaves(et) {
